@@ -24,7 +24,8 @@ package metadata
 // between the count returned and the bytes taken from the reader goes through
 // go-varint / dag-cbor reading from the counting reader).
 //@ iface Protocol.ReadFrom
-//@   modifies g_avail(r)
+//@   requires r != nil
+//@   modifies g_avail(r), state(recv)
 //@   ensures result1 == nil ==> result0 >= 1
 //@   ensures result0 >= 0
 //@   ensures-assumed result1 == nil ==> result0 <= old(g_avail(r))
@@ -97,14 +98,15 @@ package metadata
 // the sum of the lengths reported so far; success means everything was consumed.
 //@ func (*Metadata).UnmarshalBinary
 //@   property C11
-//@   requires m != nil && m.mc != nil
+//@   requires m != nil && m.mc != nil && allNonNil(m)
 //@   loop 1: invariant 0 <= read && read <= len(data)
 //@   loop 1: invariant data == old(data)
+//@   loop 1: invariant m.mc == old(m.mc) && allNonNil(m)
+//@   loop 1: invariant len(old(data)) == 0 ==> len(m.protocols) == old(len(m.protocols))
 //@   loop 1: decreases len(data) - read
 //@   at call NewBuffer#1: assert suffix(arg0, old(data), read)
 //@   at call FromUvarint#1: assert suffix(arg0, old(data), read)
-//@   at call factory#1: after assume result != nil
-//@   ensures result == nil ==> len(old(data)) > 0
+//@   ensures result == nil && old(len(m.protocols)) == 0 ==> len(old(data)) > 0
 
 // ASSUMED: registered protocol factories return non-nil transports.
 //@ func (*metadataContext).newTransport
@@ -116,7 +118,8 @@ package metadata
 // Unknown: the length prefix is checked before allocating.
 //@ func (*Unknown).ReadFrom
 //@   property C11
-//@   requires u != nil
+//@   requires u != nil && r != nil
+//@   assumes ErrTooLong != nil
 //@   at make#1: allocbound cap <= MaxMetadataSize + 20
 //@   at call ReadUvarint#1: after assume 0 <= cr.readCount && cr.readCount <= 10
 //@   at call ReadUvarint#2: after assume 0 <= cr.readCount && cr.readCount <= 20
@@ -141,26 +144,30 @@ package metadata
 
 //@ func (Bitswap).ReadFrom
 //@   property C11
+//@   requires r != nil
 //@   assumes constLens()
 //@   ensures result1 == nil ==> result0 == len(bitswapBytes)
 
 //@ func (IpfsGatewayHttp).ReadFrom
 //@   property C11
+//@   requires r != nil
 //@   assumes constLens()
 //@   ensures result1 == nil ==> result0 == len(ipfsGatewayHttpBytes)
 
 //@ func (*countingReader).Read
 //@   property C11
-//@   requires c != nil
+//@   requires c != nil && c.r != nil
 //@   ensures c.readCount == old(c.readCount) + result0 || result0 + old(c.readCount) > 9223372036854775807
 //@   ensures 0 <= result0 && result0 <= len(b)
 
 //@ func (*countingReader).ReadByte
 //@   property C11
-//@   requires c != nil
+//@   requires c != nil && c.r != nil
 
 //@ func (Metadata).Equal
 //@   property C11
+//@   requires forall(i, 0, len(m.protocols), m.protocols[i] != nil) && forall(i, 0, len(other.protocols), other.protocols[i] != nil)
 
 //@ func protocolEqual
 //@   property C11
+//@   requires one != nil && other != nil
